@@ -10,6 +10,7 @@
 //!     function of its allocation sequence and its seed, in any process.
 //! S5  clocks: the libc symbol `clock_gettime` is defined here; simulated threads read a seeded
 //!     simulated clock (rate, skew, jumps) during a run.
+//! S8  stack placement: simulated threads run on stacks at addresses the simulator decides.
 //! S6  machine size: the libc symbol `sched_getaffinity` is defined here; simulated threads see a
 //!     seeded number of CPUs during a run.
 
@@ -227,10 +228,135 @@ pub unsafe extern "C" fn sched_getaffinity(pid: libc::pid_t, size: libc::size_t,
 }
 
 // ---------------------------------------------------------------------------------------------
+// S8: stack placement
+// ---------------------------------------------------------------------------------------------
+//
+// Where a thread's stack lies (ASLR, the order in which the process mapped things, how deep the
+// caller already is) is visible to code that takes the address of a local.  Simulated threads
+// therefore run their whole body on stacks the simulator places: one fixed-address area per
+// process (the same in every process, so also in the pristine-process oracle), 24 slots of
+// 16 MiB + guard; the run's stack seed picks the slot of every simulated thread and a start
+// offset of up to 1 MiB (reference: thread t in slot t, offset 0).  The switch is a plain
+// `swapcontext` at thread start and back at thread end; a panic is carried across by value.
+
+const STACK_AREA_AT: usize = 0x2000_0000_0000;
+const STACK_SLOTS: usize = 24;
+const STACK_BYTES: usize = 16 << 20;
+const STACK_SLOT: usize = STACK_BYTES + (1 << 20);
+static STACK_BASE: AtomicUsize = AtomicUsize::new(0);
+static STACK_SEED: AtomicU64 = AtomicU64::new(0);
+static STACK_RELOCATED: AtomicU64 = AtomicU64::new(0);
+static STACK_RUNS: AtomicU64 = AtomicU64::new(0);
+
+pub fn set_stack_seed(seed: u64) {
+    STACK_SEED.store(seed, Ordering::SeqCst);
+}
+/// (threads that ran on a simulator-placed stack, 1 if the area could not be mapped at its fixed address)
+pub fn stack_stats() -> (u64, u64) {
+    (STACK_RUNS.load(Ordering::SeqCst), STACK_RELOCATED.load(Ordering::SeqCst))
+}
+
+fn stack_area() -> usize {
+    let b = STACK_BASE.load(Ordering::SeqCst);
+    if b != 0 {
+        return b;
+    }
+    let _g = lock();
+    let b = STACK_BASE.load(Ordering::SeqCst);
+    if b != 0 {
+        return b;
+    }
+    let len = STACK_SLOTS * STACK_SLOT;
+    let flags = libc::MAP_PRIVATE | libc::MAP_ANONYMOUS | libc::MAP_NORESERVE;
+    let mut p = unsafe { libc::mmap(STACK_AREA_AT as *mut libc::c_void, len, libc::PROT_READ | libc::PROT_WRITE, flags | libc::MAP_FIXED_NOREPLACE, -1, 0) };
+    if p == libc::MAP_FAILED || p as usize != STACK_AREA_AT {
+        if p != libc::MAP_FAILED {
+            unsafe { libc::munmap(p, len) };
+        }
+        STACK_RELOCATED.store(1, Ordering::SeqCst);
+        p = unsafe { libc::mmap(std::ptr::null_mut(), len, libc::PROT_READ | libc::PROT_WRITE, flags, -1, 0) };
+        assert!(p != libc::MAP_FAILED, "stack area mmap failed");
+    }
+    for k in 0..STACK_SLOTS {
+        // guard page at the low end of every slot
+        unsafe { libc::mprotect((p as usize + k * STACK_SLOT) as *mut libc::c_void, 4096, libc::PROT_NONE) };
+    }
+    STACK_BASE.store(p as usize, Ordering::SeqCst);
+    p as usize
+}
+
+/// (lowest usable address, usable length) of the stack of simulated thread `tid` under the
+/// current stack seed
+fn stack_of(tid: usize) -> (usize, usize) {
+    let seed = STACK_SEED.load(Ordering::SeqCst);
+    // thread ids: workers 0..16, external callers 16.. (at most 4 used)
+    let t = if tid < 16 { tid } else { 16 + (tid - 16) % (STACK_SLOTS - 16) };
+    let (slot, pad) = if seed == 0 {
+        (t, 0)
+    } else {
+        // a seeded permutation of the slots (Fisher-Yates over 0..STACK_SLOTS), and a seeded start offset
+        let mut perm = [0usize; STACK_SLOTS];
+        for (i, p) in perm.iter_mut().enumerate() {
+            *p = i;
+        }
+        let mut x = seed;
+        for i in (1..STACK_SLOTS).rev() {
+            x = splitmix(x);
+            perm.swap(i, (x % (i as u64 + 1)) as usize);
+        }
+        (perm[t], ((splitmix(seed ^ (t as u64 + 1) << 32) % (1 << 16)) as usize) * 16)
+    };
+    let lo = stack_area() + slot * STACK_SLOT + 4096;
+    (lo, STACK_SLOT - 4096 - pad)
+}
+
+struct Tramp<'a> {
+    body: &'a mut dyn FnMut(),
+    panic: Option<Box<dyn std::any::Any + Send>>,
+}
+
+extern "C" fn tramp_entry(lo: u32, hi: u32) {
+    let p = ((hi as u64) << 32 | lo as u64) as usize as *mut Tramp<'static>;
+    let t = unsafe { &mut *p };
+    if let Err(e) = std::panic::catch_unwind(std::panic::AssertUnwindSafe(|| (t.body)())) {
+        t.panic = Some(e);
+    }
+    // returning resumes uc_link
+}
+
+/// `sim::Config::thread_wrap`: runs the body of simulated thread `tid` on its simulator-placed stack.
+pub fn on_sim_stack(tid: usize, body: &mut dyn FnMut()) {
+    let (lo, len) = stack_of(tid);
+    STACK_RUNS.fetch_add(1, Ordering::SeqCst);
+    let mut t = Tramp { body, panic: None };
+    let p = &mut t as *mut Tramp as usize as u64;
+    unsafe {
+        let mut main_ctx: libc::ucontext_t = std::mem::zeroed();
+        let mut ctx: libc::ucontext_t = std::mem::zeroed();
+        assert!(libc::getcontext(&mut ctx) == 0);
+        ctx.uc_stack.ss_sp = lo as *mut libc::c_void;
+        ctx.uc_stack.ss_size = len & !15;
+        ctx.uc_link = &mut main_ctx;
+        let entry: extern "C" fn() = std::mem::transmute(tramp_entry as extern "C" fn(u32, u32));
+        libc::makecontext(&mut ctx, entry, 2, p as u32, (p >> 32) as u32);
+        assert!(libc::swapcontext(&mut main_ctx, &ctx) == 0);
+    }
+    if let Some(e) = t.panic.take() {
+        std::panic::resume_unwind(e);
+    }
+}
+
+// ---------------------------------------------------------------------------------------------
 // S3: address-order allocator
 // ---------------------------------------------------------------------------------------------
 
 const ARENA_BYTES: usize = 1 << 30; // virtual; touched pages only are backed
+const ARENA_AT: usize = 0x1000_0000_0000;
+static ARENA_RELOCATED: AtomicU64 = AtomicU64::new(0);
+/// 1 if the arena could not be mapped at its fixed address in this process
+pub fn arena_relocated() -> u64 {
+    ARENA_RELOCATED.load(Ordering::SeqCst)
+}
 const MAX_SMALL: usize = 512;
 const CLASSES: usize = MAX_SMALL / 16;
 const POOL: usize = 8;
@@ -300,16 +426,17 @@ pub fn begin_run(addr_seed: Option<u64>) {
     let _g = lock();
     let a = arena();
     if a.base == 0 {
-        let p = unsafe {
-            libc::mmap(
-                std::ptr::null_mut(),
-                ARENA_BYTES,
-                libc::PROT_READ | libc::PROT_WRITE,
-                libc::MAP_PRIVATE | libc::MAP_ANONYMOUS | libc::MAP_NORESERVE,
-                -1,
-                0,
-            )
-        };
+        // at a fixed address, so that absolute small-block addresses (not only their order) are the
+        // same function of the run in every process
+        let flags = libc::MAP_PRIVATE | libc::MAP_ANONYMOUS | libc::MAP_NORESERVE;
+        let mut p = unsafe { libc::mmap(ARENA_AT as *mut libc::c_void, ARENA_BYTES, libc::PROT_READ | libc::PROT_WRITE, flags | libc::MAP_FIXED_NOREPLACE, -1, 0) };
+        if p == libc::MAP_FAILED || p as usize != ARENA_AT {
+            if p != libc::MAP_FAILED {
+                unsafe { libc::munmap(p, ARENA_BYTES) };
+            }
+            ARENA_RELOCATED.store(1, Ordering::SeqCst);
+            p = unsafe { libc::mmap(std::ptr::null_mut(), ARENA_BYTES, libc::PROT_READ | libc::PROT_WRITE, flags, -1, 0) };
+        }
         assert!(p != libc::MAP_FAILED, "arena mmap failed");
         a.base = p as usize;
         a.bump = a.base;
